@@ -105,6 +105,13 @@ func check(c Case) error {
 		return nil
 	}
 	exclude := !c.NoExclusion && vk.KnownActive(knownOrigin)
+	// the same string under the other topology first, result discarded
+	flipped := c
+	flipped.Circular = !c.Circular
+	func() {
+		defer func() { _ = recover() }() // that layout need not be in the domain: whatever happens to it is not judged
+		_, _ = cut(flipped, applyCase(c.Seq, c.CaseMask))
+	}()
 	for _, r := range rotations(c) {
 		if c.Circular && exclude && refclone.InDoublingLossZone(want, L.N, c.Enzyme, len(c.Enzyme.Site), r) {
 			vk.CountExcluded("rotation needs a site occurrence outside the doubled stored sequence (K-C10-1)")
